@@ -98,6 +98,7 @@ fn main() {
                 let b = std::fs::read(p).unwrap_or_else(|e| ev::machinery(format!("replay file: {e}")));
                 let v: Value = serde_json::from_slice(&b).unwrap_or_else(|e| ev::machinery(format!("replay json: {e}")));
                 replay = Some(v["case"].clone());
+                ev::set_replay_mode();
             }
             x => ev::machinery(format!("unknown argument {x}")),
         }
